@@ -549,6 +549,9 @@ type PtrConts struct {
 type Tree []Tree
 type JMap map[string]JMap
 
+// PTree recurses through a pointer.
+type PTree []*PTree
+
 // ---- mutually recursive types with an interface slot; a struct-keyed map
 
 type MutA struct {
